@@ -578,7 +578,7 @@ status_t WebSocketMessageIOGateway :: CreateReplyFrame(const uint8 * data, uint3
       const uint32 mask = GetInsecurePseudoRandomNumber32();
       flat.WriteInt32(mask);
 
-      const uint8 * mask8 = reinterpret_cast<const uint8 *>(&mask);
+      uint8 mask8[sizeof(mask)]; BigEndianConverter::Export(mask, mask8);  // we must mask using the key's bytes in the order they appear on the wire (RFC 6455 section 5.3)
       MRETURN_ON_ERROR(_scratchMaskBuf.SetNumBytes(numBytes, false));
       uint8 * payloadBytes = _scratchMaskBuf.GetBuffer();
       for (uint32 i=0; i<numBytes; i++) payloadBytes[i] = data[i] ^ mask8[i%sizeof(mask)];
